@@ -11,6 +11,7 @@ Model/MptRc.lean (single merged store) and Model/MptRc/GcIndex.lean (tryRunGC). 
   flushL          Trie.Flush(index) through a Lay (reads merged, writes into the upper layer, and
                   writes only where the code does: trie.go:417-433)
   computeLay      stateroot.Module.AddMPTBatch + commit on a Lay, partly loaded trie
+  cleanL, jumpLay  Module.CleanStorage; a state jump (clean + restore) through the layers
   incrRefL, restoreL   Billet.incrementRefAndStore / a whole state-sync restore on a Lay, with
                   persists between restorations
   Chain, ChainEv, stepChain, runChain   the node: blocks (storeBlock), the persist timer of
@@ -91,6 +92,16 @@ def restoreL (H : Bytes → Bytes) (mode : Mode) : Lay → List Node → List Bo
   | l, n :: r, sched =>
     let l1 := if sched.headD false then l.persist else l
     restoreL H mode (incrRefL H mode l1 n) r sched.tail
+
+/-- stateroot/module.go:207-223 `CleanStorage`: every DataMPT record visible through the layers gets
+a pending deletion. -/
+def cleanL (l : Lay) : Lay := l.view.foldl (fun a e => a.set e.1 none) l
+
+/-- a state jump through the layers: `CleanStorage`, then the sync point's trie restored position
+by position (persists in between as `sched` says); `Module.JumpToState` then installs it as the
+live trie (Model/MptRc.lean `jumpSt`). -/
+def jumpLay (H : Bytes → Bytes) (mode : Mode) (l : Lay) (t : Node) (sched : List Bool) : Lay :=
+  restoreL H mode (cleanL l) (positions t) sched
 
 /-- reading a root through the layers (module.go:76-81 over `s.Store`). -/
 def lwalk (l : Lay) : Nat → Bytes → Path → VR
